@@ -228,6 +228,40 @@ func famLeaseMgr(args []string, out *bufio.Writer) error {
 				}
 			}
 		}
+		// ---- runs with SEVERAL outcomes in one provisioning run: every sequence of length 2 and 3 over a representative
+		// set (success, the two benign "exists" codes, a real storage error, a storage error without a code, a transport
+		// error, a cancellation): what one blob answered must not colour how the next one's failure is read
+		rep := []string{"none", "BlobAlreadyExists", "LeaseIdMissing", "ServerBusy", "EmptyCode", "other", "cancelled"}
+		var seqs [][]string
+		for _, a := range rep {
+			for _, b := range rep {
+				seqs = append(seqs, []string{a, b})
+				for _, c := range rep {
+					seqs = append(seqs, []string{a, b, c})
+				}
+			}
+		}
+		for _, seq := range seqs {
+			lg := &evLog{}
+			blob := &fakeBlob{}
+			for _, c := range seq {
+				blob.uploadErr = append(blob.uploadErr, mkErr(c))
+			}
+			cont := &fakeContainer{}
+			var err error
+			if gen == 1 {
+				sr := b1.NewAzureSharedResource("a", "c", 10)
+				sr.AddListener(lg.fn)
+				err = b1.VerifNewBlobLeaseManager(sr, cont, blob).CreatePartitions(bg, len(seq))
+			} else {
+				sr := b2.NewSharedResource()
+				sr.AddListener(lg.fn)
+				mgr := b2.VerifNewAzureBlobLeaseManager(cont, blob)
+				mgr.RaiseEventsTo(sr)
+				mgr.CreatePartitions(bg, len(seq))
+			}
+			fmt.Fprintf(out, "leasemgr gen=%d site=create2 codes=%s | err=%d ev=%s uploads=%d\n", gen, strings.Join(seq, ","), b01(err != nil), lg, blob.uploads)
+		}
 		loopback(out, gen)
 	}
 	return nil
